@@ -127,7 +127,7 @@ theorem addRemoteCandidate_eq (a : Agent) (c : Cand) : a.addRemoteCandidate c =
       let a : Agent := res.1
       let o : List Out := res.2
       let a : Agent := { a with remotes := a.remotes.filter fun (e : Cand) => !(replaced.any fun (x : Cand) => x.uid == e.uid) }
-      let a : Agent := (a.locals.filter fun (x : Cand) => x.net == c.net).foldl (pairStep c) a
+      let a : Agent := (a.locals.filter fun (x : Cand) => x.net == c.net && c.tt != 2).foldl (pairStep c) a
       (a.requestCheck, o, some c) := rfl
 
 theorem addRemoteCandidate_hok {ex : Prop} (a : Agent) (c : Cand) :
